@@ -114,7 +114,7 @@ def ids_for(fmt, vals, names):
     list / array input: the name *is* the value, so equal values are indistinguishable to the code; the model
     is given id = value, which makes them indistinguishable there too."""
     n = len(vals)
-    if fmt in ("list", "array", "uarray", "narrow"):
+    if fmt in ("list", "array", "uarray", "narrow", "f16"):
         return list(vals)
     order = sorted(range(n), key=lambda i: names[i])
     ids = [0] * n
@@ -139,7 +139,7 @@ FORMATS = ["list", "array", "dict_str", "dict_int", "names_valueof", "array_valu
 def names_for(fmt, vals, rng):
     """distinct names for the items of a case in the given format (list/array: names are the values)"""
     n = len(vals)
-    if fmt in ("list", "array", "uarray", "narrow"):
+    if fmt in ("list", "array", "uarray", "narrow", "f16"):
         return list(vals)
     if fmt in ("dict_str", "names_valueof"):
         # arbitrary distinct strings whose order is unrelated to the values
@@ -177,6 +177,10 @@ def present(fmt, vals, names):
         mx = max(list(vals) + [0])
         dts = [dt for dt, top in ((np.int8, 127), (np.uint8, 255), (np.int16, 32767), (np.uint16, 65535)) if mx <= top][:2] or [np.int64]
         return np.array(vals, dtype=dts[int(sha([list(vals), "narrow"]), 16) % len(dts)]), None
+    if fmt == "f16":
+        # half-precision floats holding integers they represent exactly (multiples of 32 up to 65504): the values fit, their sums overflow to inf
+        a16 = np.array(vals, dtype=np.float16)
+        return (a16 if all(float(x) == v for x, v in zip(a16, vals)) else np.array(vals, dtype=np.float64)), None
     if fmt == "array_valueof":
         # names+valueof with the names (integers unrelated to the values) in a numpy array
         # ... and the VALUES as 64-bit numpy scalars (since fix F13 an array of items reaches the algorithms as plain Python numbers; a value
